@@ -1040,6 +1040,18 @@ def stall_probe(ctx, quick, prop):
             cases.append({"backend": "cf", "n_jobs": 2, "pre": rng.choice([3, "2*n_jobs", "all"]), "return_as": ra, "N": 7,
                           "tfail": None, "ifail": None, "reuse": True, "submit_fail_at": k, "at": None, "role": "cb",
                           "delay": 0, "watchdog": 40})
+    # the call is aborted while a completion callback is inside the input iterator, which then raises (fix F48)
+    for ra in ("generator", "generator_unordered"):
+        for how in ("close", "taskfail"):
+            cases.append({"kind": "late_iter", "how": how, "backend": "cf", "n_jobs": 2, "pre": 2, "return_as": ra, "N": 4,
+                          "tfail": None, "ifail": None, "reuse": False, "at": None, "role": "cb", "delay": 0, "watchdog": 30})
+    # a backend of the documented base-class kind whose completion callback fires INSIDE submit(): results, failures and
+    # reuse must be those of any other backend
+    for pre in ("all", "2*n_jobs", 1, 5):
+        for bsz in ("auto", 1, 3):
+            for tf in (None, 4):
+                cases.append({"backend": "immediate", "n_jobs": 2, "pre": pre, "return_as": "list", "N": 12, "batch_size": bsz,
+                              "tfail": tf, "ifail": None, "reuse": True, "at": None, "role": "cb", "delay": 0, "watchdog": 40})
     nproc = max(1, min(common.NCPU - 2, 12))
     chunks = [cases[i::nproc] for i in range(nproc)]
     script = os.path.join(common.ROOT, "harness", "impl", "m1_stall.py")
@@ -1094,11 +1106,21 @@ def stall_probe(ctx, quick, prop):
                         what = what or "call %d: the input failed but the call gave %s / raised %s" % (k + 1, call["values"], call["raised"])
             if what and prop in tags and nv < 2:
                 nv += 1
-                where = ("%s thread stalled %d ms before %s line %d" % (
-                    "callback/worker" if c["role"] == "cb" else "caller", int(c["delay"] * 1000), c["at"][0], c["at"][1])) if c.get("at") else \
-                    "submit() raising at batch %d in the caller's thread, return_as=%s pre_dispatch=%s" % (c["submit_fail_at"], c["return_as"], c["pre"])
+                if c.get("kind") == "late_iter":
+                    where = "call aborted (%s) while a completion callback was inside the input iterator, which then raised; return_as=%s" % (
+                        c["how"], c["return_as"])
+                    what = what.replace("call 1", "the NEXT call on the same object")
+                elif c.get("backend") == "immediate":
+                    where = "callbacks fired inside submit(), pre_dispatch=%s batch_size=%s" % (c["pre"], c.get("batch_size"))
+                elif c.get("at"):
+                    where = "%s thread stalled %d ms before %s line %d" % (
+                        "callback/worker" if c["role"] == "cb" else "caller", int(c["delay"] * 1000), c["at"][0], c["at"][1])
+                else:
+                    where = "submit() raising at batch %s in the caller's thread, return_as=%s pre_dispatch=%s" % (
+                        c.get("submit_fail_at"), c["return_as"], c["pre"])
                 ctx.violation("%s backend, %s: %s" % (
-                    "concurrent-callback (concurrent.futures)" if c.get("backend") == "cf" else "threading", where, what),
+                    {"cf": "concurrent-callback (concurrent.futures)", "immediate": "immediate-result (base-class style)"}.get(
+                        c.get("backend"), "threading"), where, what),
                     {"kind": "stall-probe", "case": c, "result": r}, True)
     return {"stall_points": len(pts), "stall_cases": len(cases), "stall_cases_that_reached_their_line": visited,
             "stalls_injected": stalled}
